@@ -104,9 +104,13 @@ pub fn run_listing(listing: usize, n: usize, limits: &[Option<u32>]) -> Vec<Case
             } else if listing == 1 {
                 let owner = accts[0].clone();
                 let sp = addrs(&app, "spender", n);
-                for s in &sp {
-                    app.execute_contract(owner.clone(), tok.clone(), &Cw20ExecuteMsg::IncreaseAllowance { spender: s.to_string(), amount: Uint128::new(3), expires: None }, &[]).unwrap();
+                // expiry kinds are mixed; every fourth allowance has lapsed by the time of the walk (a lapsed allowance is still a stored item)
+                let h0 = app.block_info().height;
+                for (i, s) in sp.iter().enumerate() {
+                    let e = match i % 4 { 1 => Some(Expiration::AtHeight(h0 + 5)), 2 => Some(Expiration::AtHeight(h0 + 1_000_000)), _ => None };
+                    app.execute_contract(owner.clone(), tok.clone(), &Cw20ExecuteMsg::IncreaseAllowance { spender: s.to_string(), amount: Uint128::new(3), expires: e }, &[]).unwrap();
                 }
+                app.update_block(|b| { b.height += 10; b.time = b.time.plus_seconds(50); });
                 let idx = index_of(&sp);
                 for l in limits {
                     let pages = walk_str(&idx, *l, |c, lim| {
@@ -137,8 +141,12 @@ pub fn run_listing(listing: usize, n: usize, limits: &[Option<u32>]) -> Vec<Case
                 let third = app.api().addr_make("third-spender");
                 let (spender, other) = if spender.as_str() > other.as_str() { (spender, other) } else { (other, spender) };
                 let first_owner = ow.iter().min_by(|a, b| a.as_str().cmp(b.as_str())).cloned();
-                for o in &ow {
-                    app.execute_contract(o.clone(), tok.clone(), &Cw20ExecuteMsg::IncreaseAllowance { spender: spender.to_string(), amount: Uint128::new(3), expires: None }, &[]).unwrap();
+                // expiry kinds are mixed; the allowances of every fourth owner have lapsed by the time of the migration and the walk
+                let h0 = app.block_info().height;
+                let t0 = app.block_info().time;
+                for (i, o) in ow.iter().enumerate() {
+                    let e = match i % 4 { 1 => Some(Expiration::AtHeight(h0 + 5)), 2 => Some(Expiration::AtTime(t0.plus_seconds(1_000_000))), 3 if i % 8 == 3 => Some(Expiration::AtTime(t0.plus_seconds(20))), _ => None };
+                    app.execute_contract(o.clone(), tok.clone(), &Cw20ExecuteMsg::IncreaseAllowance { spender: spender.to_string(), amount: Uint128::new(3), expires: e }, &[]).unwrap();
                     app.execute_contract(o.clone(), tok.clone(), &Cw20ExecuteMsg::IncreaseAllowance { spender: other.to_string(), amount: Uint128::new(2), expires: None }, &[]).unwrap();
                     if Some(o) == first_owner.as_ref() {
                         app.execute_contract(o.clone(), tok.clone(), &Cw20ExecuteMsg::IncreaseAllowance { spender: third.to_string(), amount: Uint128::new(1), expires: None }, &[]).unwrap();
@@ -149,6 +157,7 @@ pub fn run_listing(listing: usize, n: usize, limits: &[Option<u32>]) -> Vec<Case
                         app.execute_contract(spender.clone(), tok.clone(), &Cw20ExecuteMsg::TransferFrom { owner: o.to_string(), recipient: spender.to_string(), amount: Uint128::new(3) }, &[]).unwrap();
                     }
                 }
+                app.update_block(|b| { b.height += 10; b.time = b.time.plus_seconds(50); });
                 if n % 2 == 1 || n >= 60 {
                     app.wasm_sudo(tok.clone(), &crate::cw20::SudoMsg::Legacy {}).unwrap();
                     app.migrate_contract(creator.clone(), tok.clone(), &cw20_base::msg::MigrateMsg {}, lcode).unwrap();
